@@ -57,6 +57,14 @@ func init() {
 		RunCase:     runCase,
 		MinEvals:    100,
 		CaseTimeout: 12 * time.Minute,
+		Finish: func(run *vf.Run, results []*vf.Result, ev map[string]any) []vf.Violation {
+			if run.Tier == "thorough" {
+				ev["kill_point_selection"] = "every index 1..T of each scenario's count run (T = fs-mutating syscalls of the unkilled follower), plus seeded double kills"
+			} else {
+				ev["kill_point_selection"] = "40 evenly spread indices of 1..T per scenario plus every index between publication of the restored database and of its first sidecar"
+			}
+			return nil
+		},
 	})
 }
 
@@ -77,7 +85,7 @@ func cases(run *vf.Run) ([]json.RawMessage, error) {
 	for sc := 0; sc < scns; sc++ {
 		seed := vf.SubSeed(run.Seed, "C16-scenario", sc)
 		for part := 0; part < parts; part++ {
-			out = append(out, vf.Spec(killSpec{Kind: "kill", Scn: sc + int(uint64(run.Seed)%5), Seed: seed, Stages: stages, Part: part, Parts: parts, Sample: sample, Double: double, Windows: part == 0}))
+			out = append(out, vf.Spec(killSpec{Kind: "kill", Scn: sc + int(uint64(run.Seed)%15), Seed: seed, Stages: stages, Part: part, Parts: parts, Sample: sample, Double: double, Windows: part == 0}))
 		}
 	}
 	for i := 0; i < nHist; i++ {
